@@ -98,7 +98,7 @@ theorem api_inv {c f : Bool} (hi : Inv cfg s) (h : apiStep cfg s c f = some (ev,
     simp only [hc] at h hcount
     have hx := hi.expIdle (Or.inl hc)
     have hnc := not_closing_flags hi (by simp [Closing, hc])
-    by_cases hcf : (c || f) = true
+    by_cases hcf : f = true
     · simp [hcf] at h
     · simp only [hcf, if_false, Bool.false_eq_true] at h
       cases hs : s.script with
@@ -106,7 +106,32 @@ theorem api_inv {c f : Bool} (hi : Inv cfg s) (h : apiStep cfg s c f = some (ev,
       | cons op rest =>
         simp only [hs] at h
         cases op with
+        | nexts =>
+          by_cases hch : c = true
+          · simp only [hch, if_true, Option.some.injEq, Prod.mk.injEq] at h
+            obtain ⟨-, rfl⟩ := h
+            refine ⟨hi.rd2, hi.mono, by simpa [hc, Cons.holds] using hcount, hi.wfCur, hi.wfWorking, hi.wfPush,
+              by simpa [Closing, hc] using hi.ctl, by simpa [hc] using hi.wt, hi.exited, by simp [hc],
+              ?_, by simp [hc], by simp [hc], by simp [hc], by simp [hc]⟩
+            intro _ e he
+            exact expect_congr (hx e he) rfl rfl rfl
+          · simp only [hch, if_false, Bool.false_eq_true] at h
+            cases hn : s.cur.next with
+            | none => simp [hn] at h
+            | some e =>
+              simp only [hn, Option.some.injEq, Prod.mk.injEq] at h
+              obtain ⟨-, rfl⟩ := h
+              refine ⟨hi.rd2, hi.mono, by simpa [Cons.holds] using hcount, hi.wfCur, hi.wfWorking, hi.wfPush,
+                by simpa [Closing, hc] using hi.ctl, by simpa [hc] using hi.wt, hi.exited, by simp,
+                by simp, ?_, by simp, by simp, by simp⟩
+              intro e' i' he
+              simp only [Cons.scan.injEq] at he
+              obtain ⟨rfl, rfl⟩ := he
+              exact expect_congr (hx e hn) rfl rfl rfl
         | next =>
+          by_cases hch : c = true
+          · simp [hch] at h
+          simp only [hch, if_false, Bool.false_eq_true] at h
           cases hn : s.cur.next with
           | some e =>
             simp only [hn, Option.some.injEq, Prod.mk.injEq] at h
@@ -126,6 +151,9 @@ theorem api_inv {c f : Bool} (hi : Inv cfg s) (h : apiStep cfg s c f = some (ev,
               ?_, by simp, by simp, by simp, by simp⟩
             intro _ e he; simp only at he; rw [hn] at he; cases he
         | seek off =>
+          by_cases hch : c = true
+          · simp [hch] at h
+          simp only [hch, if_false, Bool.false_eq_true] at h
           by_cases hfast : s.cur.base = some off ∧ good s.cur = true
           · simp only [hfast, and_self, if_true, Option.some.injEq, Prod.mk.injEq] at h
             obtain ⟨-, rfl⟩ := h
@@ -140,12 +168,18 @@ theorem api_inv {c f : Bool} (hi : Inv cfg s) (h : apiStep cfg s c f = some (ev,
               by simpa [Closing, hc] using hi.ctl, by simpa [hc] using hi.wt, hi.exited, by simp,
               by simp, by simp, by simp, by simp, by simp⟩
         | close =>
+          by_cases hch : c = true
+          · simp [hch] at h
+          simp only [hch, if_false, Bool.false_eq_true] at h
           simp only [Option.some.injEq, Prod.mk.injEq] at h
           obtain ⟨-, rfl⟩ := h
           exact ⟨hi.rd2, hi.mono, by simpa [Cons.holds] using hcount, hi.wfCur, hi.wfWorking, hi.wfPush,
             by simp [Closing], by simpa [hc] using hi.wt, by simp, by simp,
             by simp, by simp, by simp, by simp, by simp⟩
         | note id =>
+          by_cases hch : c = true
+          · simp [hch] at h
+          simp only [hch, if_false, Bool.false_eq_true] at h
           simp only [Option.some.injEq, Prod.mk.injEq] at h
           obtain ⟨-, rfl⟩ := h
           refine ⟨hi.rd2, hi.mono, by simpa [hc, Cons.holds] using hcount, hi.wfCur, hi.wfWorking, hi.wfPush,
